@@ -106,11 +106,19 @@ class MP2SolverPySCF(ElectronicStructureSolver):
         # Check if MP2 has been performed
         if self.mp2_fragment is None:
             raise RuntimeError(f"{self.__class__.__name__}: Cannot retrieve RDM. Please run the 'simulate' method first")
-        if self.frozen is not None:
+        # A UHF molecule without frozen orbitals reports frozen_mos = [[], []], not None
+        n_frozen = sum(len(f) for f in self.frozen) if (self.uhf and self.frozen is not None) else (len(self.frozen) if self.frozen is not None else 0)
+        if n_frozen > 0:
             raise RuntimeError(f"{self.__class__.__name__}: RDM calculation is not implemented with frozen orbitals.")
 
         one_rdm = self.mp2_fragment.make_rdm1()
         two_rdm = self.mp2_fragment.make_rdm2()
+
+        # ROHF reference: pyscf works with (alpha, beta) and (aa, ab, bb) spin blocks. Return the spin-summed RDMs the
+        # restricted molecule contracts with its integrals (as CCSDSolver does)
+        if self.spin != 0 and not self.uhf:
+            one_rdm = np.sum(one_rdm, axis=0)
+            two_rdm = np.sum((two_rdm[0], 2*two_rdm[1], two_rdm[2]), axis=0)
 
         return one_rdm, two_rdm
 
